@@ -85,8 +85,8 @@ pub fn plan(prop: &str, tier: &str) -> Option<Plan> {
     let quick = tier == "quick";
     let base = |runs_q: u64, runs_t: u64, rule: &str| Plan {
         runs: if quick { runs_q } else { runs_t },
-        budget_s: if quick { 150.0 } else { 1500.0 },
-        watchdog_s: 20.0,
+        budget_s: if quick { 240.0 } else { 2400.0 },
+        watchdog_s: 12.0,
         level: "exploration",
         rule: rule.to_string(),
         real_vs_stub: real_vs_stub(),
@@ -98,32 +98,32 @@ pub fn plan(prop: &str, tier: &str) -> Option<Plan> {
         extra: json!({}),
     };
     Some(match prop {
-        "C01" => base(240_000, 4_000_000, "seeded single-client histories (swarm over flavour x freelist x backend x layout x reserved x min segment x max alignment x capacity) of alloc_bytes/alloc_aligned_bytes/alloc<T>/owned variants/drop/detach/dealloc, arena exhaustion as the only fault; after every step every live range is checked for bounds, disjointness and byte equality with the shadow store. Non-trivial = at least one allocation was served from a recycled segment while >= 2 other ranges were live; distinct = distinct hash of the sequence of abstract states (cursor, free-list shape, live set)"),
-        "C03" => base(240_000, 4_000_000, "histories engineered for cursor residues (1..3 byte steps, odd sizes) and typed slow-path requests; per call: capacity / offset / address alignment / zero-size behaviour. Non-trivial = at least one typed or aligned request served from a recycled segment, or a zero-size request on a full arena; distinct by abstract state sequence hash"),
-        "C04" => base(240_000, 4_000_000, "boundary-dense request sizes (0, 1, remaining+-d, cap+-d, 2^31+-d, u32::MAX-allocated+-d, u32::MAX-k, random) on arbitrary reachable states incl. read-only sessions; error => state snapshot identical; panic / out-of-arena access (hook address check, Meta::clear range check) => violation. Non-trivial = at least one request >= 2^31 or within 3 of remaining()/cap failed or succeeded on a non-empty free list; distinct by abstract state sequence hash. This file reports the release profile; the checked profile (overflow-checks + debug-assertions) is run by the same command and merged"),
-        "C05" => base(60_000, 1_000_000, "file-backed histories cut by close+reopen (map_mut / map_copy / map / map_copy_read_only x capacity same/larger/absent); durable model carried across restarts, copy-on-write sessions must not persist. Non-trivial = at least 2 reopen cycles with live data and a non-empty free list; distinct by abstract state sequence hash"),
-        "C08" => base(240_000, 4_000_000, "histories in which every owner fills its buffer with non-zero bytes before release (incl. rewind, dealloc-on-top, discard_freelist, reopen); all bytes of each alloc_bytes result must be 0 at return. Non-trivial = at least one alloc_bytes served from a recycled segment or from rewound space that held non-zero bytes; distinct by abstract state sequence hash"),
-        "C10" => base(240_000, 4_000_000, "histories with set_minimum_segment_size / discard_freelist anywhere; after every step snapshot well-formedness (finite, aligned, in area, disjoint, ordered), and the policy oracle on every request that fresh space could not satisfy. Non-trivial = at least 2 slow-path requests with >= 2 segments on the list; distinct by abstract state sequence hash"),
-        "C13" => base(200_000, 3_000_000, "histories over clone / alloc* / to-owned / detach / drop in any order incl. dropping the original first, seed-chosen teardown order; release-once accounting from snapshots, refs(), drop counter, teardown callback count, remove_on_drop file existence. Non-trivial = at least one owned handle outlived an arena value and at least 3 non-detached releases; distinct by abstract state sequence hash"),
-        "C16" => base(200_000, 3_000_000, "configuration sweep (reserved 0..=4096 x unify x backend x flavour x capacities around the prefix) plus histories on the three backends side by side; see coverage.extra for the sweep. Non-trivial histories = at least 4 allocations and one release; distinct by abstract state sequence hash"),
-        "C17" => base(240_000, 4_000_000, "histories with rewind(pos) at arbitrary points, pos boundary-dense over u32 / i64; cursor vs i128 reference clamp, nothing else changes; clear() checked in place and (differentially) against a fresh arena. Non-trivial = at least one rewind whose raw target fell outside [data_offset, capacity] and one inside; distinct by abstract state sequence hash"),
-        "C18" => base(200_000, 3_000_000, "unsync::Arena histories (Vec / anon / file, unify on/off, free list and live detached data) with truncate(n), n boundary-dense in 0..=4*capacity, repeated; capacity = max(n, allocated), header / free list / bytes below allocated unchanged, later allocations judged by the per-step oracles against the new capacity; read-only sessions must refuse. Non-trivial = at least one growing and one shrinking truncate with a non-empty free list or live data; distinct by abstract state sequence hash"),
-        "C20" => base(240_000, 4_000_000, "histories with discard_freelist / increase_discarded / set_minimum_segment_size anywhere; per-step accounting from (discarded, snapshot) before/after, discarded ranges never handed out again. Non-trivial = discard_freelist on a list with >= 2 segments and at least one too-small release; distinct by abstract state sequence hash"),
+        "C01" => base(1_500_000, 30_000_000, "seeded single-client histories (swarm over flavour x freelist x backend x layout x reserved x min segment x max alignment x capacity) of alloc_bytes/alloc_aligned_bytes/alloc<T>/owned variants/drop/detach/dealloc, arena exhaustion as the only fault; after every step every live range is checked for bounds, disjointness and byte equality with the shadow store. Non-trivial = at least one allocation was served from a recycled segment while >= 2 other ranges were live; distinct = distinct hash of the sequence of abstract states (cursor, free-list shape, live set)"),
+        "C03" => base(1_500_000, 30_000_000, "histories engineered for cursor residues (1..3 byte steps, odd sizes) and typed slow-path requests; per call: capacity / offset / address alignment / zero-size behaviour. Non-trivial = at least one typed or aligned request served from a recycled segment, or a zero-size request on a full arena; distinct by abstract state sequence hash"),
+        "C04" => base(1_500_000, 30_000_000, "boundary-dense request sizes (0, 1, remaining+-d, cap+-d, 2^31+-d, u32::MAX-allocated+-d, u32::MAX-k, random) on arbitrary reachable states incl. read-only sessions; error => state snapshot identical; panic / out-of-arena access (hook address check, Meta::clear range check) => violation. Non-trivial = at least one request >= 2^31 or within 3 of remaining()/cap failed or succeeded on a non-empty free list; distinct by abstract state sequence hash. This file reports the release profile; the checked profile (overflow-checks + debug-assertions) is run by the same command and merged"),
+        "C05" => base(800_000, 16_000_000, "file-backed histories cut by close+reopen (map_mut / map_copy / map / map_copy_read_only x capacity same/larger/absent); durable model carried across restarts, copy-on-write sessions must not persist. Non-trivial = at least 2 reopen cycles with live data and a non-empty free list; distinct by abstract state sequence hash"),
+        "C08" => base(1_500_000, 30_000_000, "histories in which every owner fills its buffer with non-zero bytes before release (incl. rewind, dealloc-on-top, discard_freelist, reopen); all bytes of each alloc_bytes result must be 0 at return. Non-trivial = at least one alloc_bytes served from a recycled segment or from rewound space that held non-zero bytes; distinct by abstract state sequence hash"),
+        "C10" => base(1_500_000, 30_000_000, "histories with set_minimum_segment_size / discard_freelist anywhere; after every step snapshot well-formedness (finite, aligned, in area, disjoint, ordered), and the policy oracle on every request that fresh space could not satisfy. Non-trivial = at least 2 slow-path requests with >= 2 segments on the list; distinct by abstract state sequence hash"),
+        "C13" => base(600_000, 10_000_000, "histories over clone / alloc* / to-owned / detach / drop in any order incl. dropping the original first, seed-chosen teardown order; release-once accounting from snapshots, refs(), drop counter, teardown callback count, remove_on_drop file existence. Non-trivial = at least one owned handle outlived an arena value and at least 3 non-detached releases; distinct by abstract state sequence hash"),
+        "C16" => base(1_200_000, 20_000_000, "configuration sweep (reserved 0..=4096 x unify x backend x flavour x capacities around the prefix) plus histories on the three backends side by side; see coverage.extra for the sweep. Non-trivial histories = at least 4 allocations and one release; distinct by abstract state sequence hash"),
+        "C17" => base(1_500_000, 30_000_000, "histories with rewind(pos) at arbitrary points, pos boundary-dense over u32 / i64; cursor vs i128 reference clamp, nothing else changes; clear() checked in place and (differentially) against a fresh arena. Non-trivial = at least one rewind whose raw target fell outside [data_offset, capacity] and one inside; distinct by abstract state sequence hash"),
+        "C18" => base(1_200_000, 20_000_000, "unsync::Arena histories (Vec / anon / file, unify on/off, free list and live detached data) with truncate(n), n boundary-dense in 0..=4*capacity, repeated; capacity = max(n, allocated), header / free list / bytes below allocated unchanged, later allocations judged by the per-step oracles against the new capacity; read-only sessions must refuse. Non-trivial = at least one growing and one shrinking truncate with a non-empty free list or live data; distinct by abstract state sequence hash"),
+        "C20" => base(1_500_000, 30_000_000, "histories with discard_freelist / increase_discarded / set_minimum_segment_size anywhere; per-step accounting from (discarded, snapshot) before/after, discarded ranges never handed out again. Non-trivial = discard_freelist on a list with >= 2 segments and at least one too-small release; distinct by abstract state sequence hash"),
         "C06" => {
-            let mut p = base(6_000, 120_000, "file-backed histories (sync: Optimistic / Pessimistic / None; unsync at operation boundaries); the hook copies memory() at every atomic step; every step of every operation (before the first and after the last access included) is a crash point - all of them within a history in the thorough tier, every third plus all operation boundaries in the quick tier; each image is written to a fresh tmpfs file and opened with the real map_mut; oracle: opens, data_offset <= cursor <= capacity, every range returned and not being released holds its bytes and lies below the cursor, post-crash workload (fill, drain the list, free, discard_freelist) terminates under a 20000-step per-call budget and never hands out a pre-crash live byte. evaluations = histories; coverage.faults_fired.crash_point = crash points. Non-trivial = history with >= 3 in-operation crash points, live ranges and a non-empty free list; distinct by access-trace hash");
+            let mut p = base(20_000, 150_000, "file-backed histories (sync: Optimistic / Pessimistic / None; unsync at operation boundaries); the hook copies memory() at every atomic step; every step of every operation (before the first and after the last access included) is a crash point - all of them within a history in the thorough tier, every third plus all operation boundaries in the quick tier; each image is written to a fresh tmpfs file and opened with the real map_mut; oracle: opens, data_offset <= cursor <= capacity, every range returned and not being released holds its bytes and lies below the cursor, post-crash workload (fill, drain the list, free, discard_freelist) terminates under a 20000-step per-call budget and never hands out a pre-crash live byte. evaluations = histories; coverage.faults_fired.crash_point = crash points. Non-trivial = history with >= 3 in-operation crash points, live ranges and a non-empty free list; distinct by access-trace hash");
             p.level = "fault_enumeration";
             p.exhaustive = false;
             p
         }
         "C09" => {
-            let mut p = base(4_000, 80_000, "valid arena file from a short history (live data, free list, non-zero bytes above the cursor); per run one of: one identification byte x all 256 values, every truncation length 0..=prefix+16, 48 garbage files, or a read-only session of 4..40 mutating safe calls; each file x open variants {map_mut, map_copy, map, map_copy_read_only} x capacity {absent, same, larger} x expected freelist / magic right or wrong (all 12 variant x capacity combinations in the thorough tier, a seeded half in the quick tier); expected outcome computed from the statement; refused open => file bytes unchanged (prefix comparison). evaluations = base files; coverage.faults_fired.corrupt_* = fault cases. Non-trivial = at least one fault case executed; distinct by (seed, run, cases) hash");
+            let mut p = base(16_000, 200_000, "valid arena file from a short history (live data, free list, non-zero bytes above the cursor); per run one of: one identification byte x all 256 values, every truncation length 0..=prefix+16, 48 garbage files, or a read-only session of 4..40 mutating safe calls; each file x open variants {map_mut, map_copy, map, map_copy_read_only} x capacity {absent, same, larger} x expected freelist / magic right or wrong (all 12 variant x capacity combinations in the thorough tier, a seeded half in the quick tier); expected outcome computed from the statement; refused open => file bytes unchanged (prefix comparison). evaluations = base files; coverage.faults_fired.corrupt_* = fault cases. Non-trivial = at least one fault case executed; distinct by (seed, run, cases) hash");
             p.level = "fault_enumeration";
             p
         }
-        "C11" => base(200_000, 3_000_000, "one configuration and one seeded operation sequence over the whole single-thread-usable trait surface (all alloc flavours, drop/detach/dealloc, discard_freelist, set_minimum_segment_size, increase_discarded, rewind, clear; Vec / anon / file) executed in lock-step on sync::Arena (with spurious weak-CAS failures injected) and unsync::Arena as the executable reference model; equal observation tuples (result kind, error kind, offset, capacity, buffer extent, allocated, discarded, remaining, free-list snapshot, refs) after every step. Non-trivial = at least 4 operations with a release or a slow-path allocation; distinct by abstract state sequence hash"),
-        "C02" => base(60_000, 1_500_000, "seeded schedules (random / sticky / PCT / targeted-preemption strategies, spurious weak-CAS failures) of 2..4 threads x 1..12 operations (alloc_bytes / alloc_aligned_bytes / alloc<T> / owned variants / drop / keep-for-ever) on clones of one sync::Arena after a single-threaded set-up that fills the arena and frees a random subset; oracles inside scheduling steps: new range in data area and disjoint from all live ranges, all live bytes equal their shadow after every value-changing access and before every arena zeroing, every intercepted address inside arena/header. Non-trivial = a list operation (slow-path allocation or release) of one thread overlapped in time with one of another thread, or a CAS failed; distinct = distinct hash of the normalised access trace (thread, location, op, outcome)*"),
-        "C07" => base(60_000, 1_500_000, "schedules as C02 (Optimistic / Pessimistic) plus discard_freelist and threads that keep or detach allocations for ever or finish early; busy-wait detector parks a thread after 256 accesses without any value-changing write by anybody; verdicts: all unfinished threads parked and a 4096-step-per-thread round-robin confirmation without change (V1), solo thread > 20000 steps in one call (V2), no call completed in 50000 steps (V3). Non-trivial / distinct as C02"),
-        "C12" => base(40_000, 1_000_000, "schedules as C02 plus programs that clone / drop arena values and move owned buffers between threads (mailbox = release/acquire pair), teardown inside the simulation; FastTrack-style vector clocks with C++20 release sequences built from the Ordering arguments actually passed; plain accesses = owner writes/reads through handles, arena zeroing, unmap/free; oracle: no conflicting plain/plain or plain/atomic accesses unordered by happens-before. Non-trivial = more than 4 conflict checks and >= 2 context switches; distinct by access-trace hash"),
+        "C11" => base(1_200_000, 20_000_000, "one configuration and one seeded operation sequence over the whole single-thread-usable trait surface (all alloc flavours, drop/detach/dealloc, discard_freelist, set_minimum_segment_size, increase_discarded, rewind, clear; Vec / anon / file) executed in lock-step on sync::Arena (with spurious weak-CAS failures injected) and unsync::Arena as the executable reference model; equal observation tuples (result kind, error kind, offset, capacity, buffer extent, allocated, discarded, remaining, free-list snapshot, refs) after every step. Non-trivial = at least 4 operations with a release or a slow-path allocation; distinct by abstract state sequence hash"),
+        "C02" => base(400_000, 8_000_000, "seeded schedules (random / sticky / PCT / targeted-preemption strategies, spurious weak-CAS failures) of 2..4 threads x 1..12 operations (alloc_bytes / alloc_aligned_bytes / alloc<T> / owned variants / drop / keep-for-ever) on clones of one sync::Arena after a single-threaded set-up that fills the arena and frees a random subset; oracles inside scheduling steps: new range in data area and disjoint from all live ranges, all live bytes equal their shadow after every value-changing access and before every arena zeroing, every intercepted address inside arena/header. Non-trivial = a list operation (slow-path allocation or release) of one thread overlapped in time with one of another thread, or a CAS failed; distinct = distinct hash of the normalised access trace (thread, location, op, outcome)*"),
+        "C07" => base(400_000, 8_000_000, "schedules as C02 (Optimistic / Pessimistic) plus discard_freelist and threads that keep or detach allocations for ever or finish early; busy-wait detector parks a thread after 256 accesses without any value-changing write by anybody; verdicts: all unfinished threads parked and a 4096-step-per-thread round-robin confirmation without change (V1), solo thread > 20000 steps in one call (V2), no call completed in 50000 steps (V3). Non-trivial / distinct as C02"),
+        "C12" => base(400_000, 6_000_000, "schedules as C02 plus programs that clone / drop arena values and move owned buffers between threads (mailbox = release/acquire pair), teardown inside the simulation; FastTrack-style vector clocks with C++20 release sequences built from the Ordering arguments actually passed; plain accesses = owner writes/reads through handles, arena zeroing, unmap/free; oracle: no conflicting plain/plain or plain/atomic accesses unordered by happens-before. Non-trivial = more than 4 conflict checks and >= 2 context switches; distinct by access-trace hash"),
         _ => return None,
     })
 }
